@@ -19,11 +19,17 @@ T = {
  'C05_1': ('C05', 'ESCAPE[0x1F] cleared', 'a string or key containing U+001F', './check C05', 'caught: SMT table queries (exactly_the_must_escape_set, other_controls_use_u) and escape_roundtrip_2/3 C05.escape.controls'),
  'C05_2': ('C05', 'HEX_DIGITS d and e transposed', 'U+000E, U+001D or U+001E in a string', './check C05', 'caught: VIOLATION escape_roundtrip_2/3 C05.escape.roundtrip (the table queries hold: the table is untouched)'),
  'C14_1': ('C14', 'bare_allowed accepts `:` (range end off by one)', 'a TOML key containing `:`', './check C14 --only toml_key', 'caught: VIOLATION toml_key C14.toml.bare_charset (173 s)'),
- 'C14_2': ('C14', 'bare_safe hexadecimal branch requires len > 3', 'a three-character key 0x<digit>', './check C14 --only yaml', ''),
+ 'C14_2': ('C14', 'bare_safe hexadecimal branch requires len > 3', 'a three-character key 0x<digit>', './check C14 --only yaml_bare_safe_3', 'caught: VIOLATION yaml_bare_safe_3 C14.yaml.not_special (575 s), after the harness was split per concrete key length (first runs: unwinding bound too small, then the 900 s cap)'),
  'C10_1': ('C10', 'setInter pushes the element of b on equal keys', 'a key function mapping two different elements to one key', './check C10 --only set_inter', 'caught: VIOLATION set_inter C10.set.elements (85 s); the first run ended exit 2 because the driver replayed a cover test instead of the failing assertion (fixed)'),
  'C03_1': ('C03', 'MappedArray::get puts a failed element back to Waiting instead of caching the error', 'a second read of an element whose first evaluation failed', './check C03', 'caught: VIOLATION mapped_array_once C03.map.once (13 s, after splitting the re-entrant case into its own harness; before the split the harness hit its 900 s cap)'),
  'C18_1': ('C18', 'check_utf8 sets the cached flag whatever the validation result', 'invalid UTF-8 bytes, kept alive, validated twice', './check C18 --only inner_history_bytes', 'caught: VIOLATION inner_history_bytes C18.inner.check_utf8 (253 s)'),
- 'C04_1': ('C04', 'check_depth increments before comparing and does not undo it on the error path', 'a reported stack overflow followed by further evaluation on the same thread', './check C04 --only stack_', ''),
+ 'C04_1': ('C04', 'check_depth increments before comparing and does not undo it on the error path', 'a reported stack overflow followed by further evaluation on the same thread', './check C16', 'caught: VIOLATION stack_lifo_history C16.stack.restored (252 s); first run exit 2: cover test replayed instead of the failing assertion (driver fixed)'),
+ 'R3A_1': ('C01', 'evaluate_binary_op_special gets a short-circuit arm `(Bool(true), And, eb) => evaluate(eb)`', '`true && <non-boolean>`', './check C01 --only logic_', 'missed by the first version (only evaluate_binary_op_normal was extracted); the logic_and / logic_or harnesses over evaluate_binary_op_special were added for it -> caught: VIOLATION logic_and C01.logic.type (85 s)'),
+ 'R3A_2': ('C13', 'primitive_equals rejects when exactly one argument is a function (&& -> ||)', 'std.primitiveEquals(function, non-function)', './check C13 --only equality_table', 'detected: equality_table C13.primitiveEquals.kinds (194 s); first run exit 2 because the replay programs only exercised `==` (the real binary agreed with the oracle) -> a std.primitiveEquals replay program was added'),
+ 'R3A_3': ('C09', '~ converts its operand with floor instead of truncation', 'a negative operand with a fractional part', './check C09 --only num_unary', 'caught: VIOLATION num_unary C09.bitnot (4 s)'),
+ 'R3B_1': ('C08', 'ArrValue::slice flattens a slice of a slice into one view (downcast), wrong for a negative start off the first slice\'s grid', 'slice of a slice, first step > 1 with (to-from) % step != 0, second start negative', './check C08 --only d2_slice_of_slice', 'NOT DECIDED (exit 2): the change restructures ArrValue::slice (downcast of the receiver to SliceArray through as_any); the extracted text no longer compiles against the per-level stand-ins -> infrastructure error with the compiler message, never a pass'),
+ 'R3B_2': ('C02', 'get_idx_uncached: `skip = new_skip + 1` instead of max(skip, ...)', 'two nested key removals with the inner one reaching less far, then a read', './check C02 --only chain3_get', 'caught: VIOLATION chain3_get C02.get (72 s)'),
+ 'R3B_3': ('C12', 'render_integer counts the blank flag as its own column', 'zero flag + blank flag + (negative value or + flag)', './check C12 --only "^int_decimal$"', 'caught: VIOLATION int_decimal C12.int.text (79 s)'),
 }
 for sid, (prop, what, needs, ran, result) in T.items():
     d = os.path.join(V, 'seeded', sid)
